@@ -84,20 +84,20 @@ theorem potential_one_nil (frags : List (String × String × SelectionSet)) :
 
 /-! ## one induction over the syntax for every state relation -/
 
-structure StepInv (c : Ctx) (rec : SelectionSet → St → St) (P : St → St → Nat → Prop) : Prop where
+structure StepInv (c : Ctx) (rec : Chain → SelectionSet → St → St) (P : St → St → Nat → Prop) : Prop where
   refl : ∀ st, P st st 0
   trans : ∀ {a b d m n}, P a b m → P b d n → P a d (m + n)
   mono : ∀ {a b m n}, P a b m → m ≤ n → P a b n
   field : ∀ (st : St) fs, P st { st with fields := fs } 0
   enter : ∀ (st : St), P st { st with collect := st.collect + 1 } 1
-  spread : ∀ (st : St) n f, n ∉ st.visited → c.lookup n = some f →
+  spread : ∀ (st : St) n f (chain : Chain), n ∉ st.visited → c.lookup n = some f →
     (c.applies (some f.2.1) = false → P st { st with visited := n :: st.visited } 0) ∧
     (c.applies (some f.2.1) = true →
-      P st (rec f.2.2 { st with visited := n :: st.visited, entered := n :: st.entered }) 0)
+      P st (rec (n :: chain) f.2.2 { st with visited := n :: st.visited, entered := n :: st.entered }) 0)
 
 mutual
-theorem collectSel_inv {c : Ctx} {rec} {P} (h : StepInv c rec P) :
-    ∀ (sel : Selection) (st : St), P st (collectSel c rec sel st) (inlSel sel)
+theorem collectSel_inv {c : Ctx} {rec} {P} (h : StepInv c rec P) (chain : Chain) :
+    ∀ (sel : Selection) (st : St), P st (collectSel c rec chain sel st) (inlSel sel)
   | .field alias name args dirs sub loc, st => by
     simp only [collectSel, inlSel]
     split
@@ -109,7 +109,7 @@ theorem collectSel_inv {c : Ctx} {rec} {P} (h : StepInv c rec P) :
     · exact h.mono (h.refl st) (Nat.zero_le _)
     · split
       · exact h.mono (h.refl st) (Nat.zero_le _)
-      · exact collectSet_inv h ss st
+      · exact collectSet_inv h chain ss st
   | .spread name dirs loc, st => by
     simp only [collectSel, inlSel]
     split
@@ -120,24 +120,26 @@ theorem collectSel_inv {c : Ctx} {rec} {P} (h : StepInv c rec P) :
         split
         · exact h.refl st
         · rename_i nm cond body hl
-          have hv' : name.value ∉ st.visited := by simpa using hv
-          have hs := h.spread st name.value (nm, cond, body) hv' hl
+          have hv' : name.value ∉ st.visited := by
+            intro hm
+            exact hv (by simp [hm])
+          have hs := h.spread st name.value (nm, cond, body) chain hv' hl
           split
           · rename_i ha
             exact hs.1 (by simpa using ha)
           · rename_i ha
             exact hs.2 (by simpa using ha)
-theorem collectSet_inv {c : Ctx} {rec} {P} (h : StepInv c rec P) :
-    ∀ (ss : SelectionSet) (st : St), P st (collectSet c rec ss st) (1 + inlSet ss)
+theorem collectSet_inv {c : Ctx} {rec} {P} (h : StepInv c rec P) (chain : Chain) :
+    ∀ (ss : SelectionSet) (st : St), P st (collectSet c rec chain ss st) (1 + inlSet ss)
   | .mk sels loc, st => by
     simp only [collectSet, inlSet]
-    exact h.trans (h.enter st) (collectSels_inv h sels _)
-theorem collectSels_inv {c : Ctx} {rec} {P} (h : StepInv c rec P) :
-    ∀ (sels : List Selection) (st : St), P st (collectSels c rec sels st) (inlSels sels)
+    exact h.trans (h.enter st) (collectSels_inv h chain sels _)
+theorem collectSels_inv {c : Ctx} {rec} {P} (h : StepInv c rec P) (chain : Chain) :
+    ∀ (sels : List Selection) (st : St), P st (collectSels c rec chain sels st) (inlSels sels)
   | [], st => by simp only [collectSels, inlSels]; exact h.refl st
   | s :: rest, st => by
     simp only [collectSels, inlSels]
-    exact h.trans (collectSel_inv h s st) (collectSels_inv h rest _)
+    exact h.trans (collectSel_inv h chain s st) (collectSels_inv h chain rest _)
 end
 
 /-! ## instance 1: the collect counter is bounded by the inline-fragment count plus the potential consumed -/
@@ -145,44 +147,44 @@ end
 def Bounded (c : Ctx) (a b : St) (budget : Nat) : Prop :=
   b.collect + potential fragWeight c.frags b.visited ≤ a.collect + potential fragWeight c.frags a.visited + budget
 
-theorem bounded_stepInv (c : Ctx) (rec : SelectionSet → St → St)
-    (hrec : ∀ body st, Bounded c st (rec body st) (1 + inlSet body)) : StepInv c rec (Bounded c) where
+theorem bounded_stepInv (c : Ctx) (rec : Chain → SelectionSet → St → St)
+    (hrec : ∀ chain body st, Bounded c st (rec chain body st) (1 + inlSet body)) : StepInv c rec (Bounded c) where
   refl := fun st => by simp [Bounded]
   trans := fun h1 h2 => by simp only [Bounded] at *; omega
   mono := fun h1 h2 => by simp only [Bounded] at *; omega
   field := fun st fs => by simp [Bounded]
   enter := fun st => by simp only [Bounded]; omega
-  spread := fun st n f hv hl => by
+  spread := fun st n f chain hv hl => by
     have hp := potential_visit fragWeight c.frags st.visited n f hl hv
     constructor
     · intro _
       simp only [Bounded]; omega
     · intro _
-      have := hrec f.2.2 { st with visited := n :: st.visited, entered := n :: st.entered }
+      have := hrec (n :: chain) f.2.2 { st with visited := n :: st.visited, entered := n :: st.entered }
       simp only [Bounded, fragWeight] at *
       omega
 
-theorem collectFuel_bounded (c : Ctx) : ∀ (n : Nat) (body : SelectionSet) (st : St),
-    Bounded c st (collectFuel c n body st) (1 + inlSet body)
-  | 0, body, st => by simp [collectFuel, Bounded]
-  | n + 1, body, st => by
+theorem collectFuel_bounded (c : Ctx) : ∀ (n : Nat) (chain : Chain) (body : SelectionSet) (st : St),
+    Bounded c st (collectFuel c n chain body st) (1 + inlSet body)
+  | 0, chain, body, st => by simp [collectFuel, Bounded]
+  | n + 1, chain, body, st => by
     simp only [collectFuel]
-    exact collectSet_inv (bounded_stepInv c _ (collectFuel_bounded c n)) body st
+    exact collectSet_inv (bounded_stepInv c _ (collectFuel_bounded c n)) chain body st
 
-theorem planMerged_bounded (c : Ctx) : ∀ (subs : List SelectionSet) (st : St),
-    Bounded c st (planMerged c subs st) ((subs.map (fun ss => 1 + inlSet ss)).sum)
+theorem planMerged_bounded (c : Ctx) : ∀ (subs : List (SelectionSet × Chain)) (st : St),
+    Bounded c st (planMerged c subs st) ((subs.map (fun ss => 1 + inlSet ss.1)).sum)
   | [], st => by simp [planMerged, Bounded]
-  | ss :: rest, st => by
+  | (ss, chain) :: rest, st => by
     simp only [planMerged, List.map_cons, List.sum_cons]
-    have h1 := collectFuel_bounded c (fuelFor c) ss st
-    have h2 := planMerged_bounded c rest (collectTop c ss st)
+    have h1 := collectFuel_bounded c (fuelFor c) chain ss st
+    have h2 := planMerged_bounded c rest (collectTop c chain ss st)
     simp only [Bounded, collectTop] at *
     omega
 
 /-- cost of collecting one selection set from a fresh state -/
-theorem collectTop_collect_le (c : Ctx) (ss : SelectionSet) :
-    (collectTop c ss {}).collect ≤ 1 + inlSet ss + fragsSize c.frags := by
-  have h := collectFuel_bounded c (fuelFor c) ss {}
+theorem collectTop_collect_le (c : Ctx) (chain : Chain) (ss : SelectionSet) :
+    (collectTop c chain ss {}).collect ≤ 1 + inlSet ss + fragsSize c.frags := by
+  have h := collectFuel_bounded c (fuelFor c) chain ss {}
   simp only [Bounded, collectTop, fragsSize] at *
   have : ({} : St).collect = 0 := rfl
   have : ({} : St).visited = [] := rfl
@@ -190,7 +192,7 @@ theorem collectTop_collect_le (c : Ctx) (ss : SelectionSet) :
   omega
 
 /-- cost of one `planMergedSelectionsForType` call -/
-theorem planMerged_collect_le (c : Ctx) (subs : List SelectionSet) :
+theorem planMerged_collect_le (c : Ctx) (subs : List (SelectionSet × Chain)) :
     (planMerged c subs {}).collect ≤ levelSize c subs := by
   have h := planMerged_bounded c subs {}
   simp only [Bounded, levelSize, fragsSize] at *
@@ -206,8 +208,8 @@ def mu (c : Ctx) (st : St) : Nat := potential (fun _ => 1) c.frags st.visited
 def FuelRel (c : Ctx) (k : Nat) (a b : St) (_ : Nat) : Prop :=
   mu c b ≤ mu c a ∧ (mu c a ≤ k → b.oof = a.oof)
 
-theorem fuel_stepInv (c : Ctx) (rec : SelectionSet → St → St) (k : Nat)
-    (hrec : ∀ body st, mu c (rec body st) ≤ mu c st ∧ (mu c st + 1 ≤ k → (rec body st).oof = st.oof)) :
+theorem fuel_stepInv (c : Ctx) (rec : Chain → SelectionSet → St → St) (k : Nat)
+    (hrec : ∀ chain body st, mu c (rec chain body st) ≤ mu c st ∧ (mu c st + 1 ≤ k → (rec chain body st).oof = st.oof)) :
     StepInv c rec (FuelRel c k) where
   refl := fun st => by simp [FuelRel]
   trans := fun h1 h2 => by
@@ -217,40 +219,41 @@ theorem fuel_stepInv (c : Ctx) (rec : SelectionSet → St → St) (k : Nat)
   mono := fun h1 _ => h1
   field := fun st fs => by simp [FuelRel, mu]
   enter := fun st => by simp [FuelRel, mu]
-  spread := fun st n f hv hl => by
+  spread := fun st n f chain hv hl => by
     have hp := potential_visit (fun _ => 1) c.frags st.visited n f hl hv
     constructor
     · intro _
       refine ⟨?_, fun _ => rfl⟩
       simp only [mu]; omega
     · intro _
-      have := hrec f.2.2 { st with visited := n :: st.visited, entered := n :: st.entered }
+      have := hrec (n :: chain) f.2.2 { st with visited := n :: st.visited, entered := n :: st.entered }
       simp only [FuelRel, mu] at *
       refine ⟨by omega, fun hk => ?_⟩
       rw [this.2 (by omega)]
 
-theorem collectFuel_fuel (c : Ctx) : ∀ (n : Nat) (body : SelectionSet) (st : St),
-    mu c (collectFuel c n body st) ≤ mu c st ∧ (mu c st + 1 ≤ n → (collectFuel c n body st).oof = st.oof)
-  | 0, body, st => by simp [collectFuel, mu]
-  | n + 1, body, st => by
+theorem collectFuel_fuel (c : Ctx) : ∀ (n : Nat) (chain : Chain) (body : SelectionSet) (st : St),
+    mu c (collectFuel c n chain body st) ≤ mu c st ∧ (mu c st + 1 ≤ n → (collectFuel c n chain body st).oof = st.oof)
+  | 0, chain, body, st => by simp [collectFuel, mu]
+  | n + 1, chain, body, st => by
     simp only [collectFuel]
-    have h := collectSet_inv (fuel_stepInv c _ n (collectFuel_fuel c n)) body st
+    have h := collectSet_inv (fuel_stepInv c _ n (collectFuel_fuel c n)) chain body st
     simp only [FuelRel] at h
     exact ⟨h.1, fun hk => h.2 (by omega)⟩
 
 /-- with `fuelFor c` = number of fragment definitions + 1 the model never runs out of fuel, whatever the
 fragment table looks like (cyclic, duplicated names, unknown names) and whatever was visited before -/
-theorem collectTop_oof (c : Ctx) (ss : SelectionSet) (st : St) : (collectTop c ss st).oof = st.oof := by
-  have h := (collectFuel_fuel c (fuelFor c) ss st).2
+theorem collectTop_oof (c : Ctx) (chain : Chain) (ss : SelectionSet) (st : St) :
+    (collectTop c chain ss st).oof = st.oof := by
+  have h := (collectFuel_fuel c (fuelFor c) chain ss st).2
   apply h
   have := potential_le_total (fun _ => 1) c.frags st.visited
   rw [potential_one_nil] at this
   simp only [mu, fuelFor]
   omega
 
-theorem planMerged_oof (c : Ctx) : ∀ (subs : List SelectionSet) (st : St), (planMerged c subs st).oof = st.oof
+theorem planMerged_oof (c : Ctx) : ∀ (subs : List (SelectionSet × Chain)) (st : St), (planMerged c subs st).oof = st.oof
   | [], st => rfl
-  | ss :: rest, st => by
+  | (ss, chain) :: rest, st => by
     simp only [planMerged]
     rw [planMerged_oof c rest, collectTop_oof]
 
@@ -260,14 +263,14 @@ def EntOK (st : St) : Prop := st.entered.Nodup ∧ ∀ x ∈ st.entered, x ∈ s
 
 def EntRel (a b : St) (_ : Nat) : Prop := EntOK a → EntOK b
 
-theorem ent_stepInv (c : Ctx) (rec : SelectionSet → St → St)
-    (hrec : ∀ body st, EntOK st → EntOK (rec body st)) : StepInv c rec EntRel where
+theorem ent_stepInv (c : Ctx) (rec : Chain → SelectionSet → St → St)
+    (hrec : ∀ chain body st, EntOK st → EntOK (rec chain body st)) : StepInv c rec EntRel where
   refl := fun st h => h
   trans := fun h1 h2 h => h2 (h1 h)
   mono := fun h1 _ => h1
   field := fun st fs h => h
   enter := fun st h => h
-  spread := fun st n f hv hl => by
+  spread := fun st n f chain hv hl => by
     have hnv : n ∉ st.visited := hv
     constructor
     · intro _ h
@@ -282,22 +285,22 @@ theorem ent_stepInv (c : Ctx) (rec : SelectionSet → St → St)
         · exact List.mem_cons_self ..
         · exact List.mem_cons_of_mem _ (h.2 x hx)
 
-theorem collectFuel_ent (c : Ctx) : ∀ (n : Nat) (body : SelectionSet) (st : St),
-    EntOK st → EntOK (collectFuel c n body st)
-  | 0, body, st => fun h => h
-  | n + 1, body, st => by
+theorem collectFuel_ent (c : Ctx) : ∀ (n : Nat) (chain : Chain) (body : SelectionSet) (st : St),
+    EntOK st → EntOK (collectFuel c n chain body st)
+  | 0, chain, body, st => fun h => h
+  | n + 1, chain, body, st => by
     simp only [collectFuel]
-    exact collectSet_inv (ent_stepInv c _ (collectFuel_ent c n)) body st
+    exact collectSet_inv (ent_stepInv c _ (collectFuel_ent c n)) chain body st
 
-theorem planMerged_ent (c : Ctx) : ∀ (subs : List SelectionSet) (st : St), EntOK st → EntOK (planMerged c subs st)
+theorem planMerged_ent (c : Ctx) : ∀ (subs : List (SelectionSet × Chain)) (st : St), EntOK st → EntOK (planMerged c subs st)
   | [], _ => fun h => h
-  | ss :: rest, st => fun h => planMerged_ent c rest _ (collectFuel_ent c _ ss st h)
+  | (ss, chain) :: rest, st => fun h => planMerged_ent c rest _ (collectFuel_ent c _ chain ss st h)
 
 /-! ## execution-time planning: invariants of the memo log -/
 
 /-- what every log entry satisfies -/
 def EntryOK (frags : List (String × String × SelectionSet)) (en : Entry) : Prop :=
-  en.cost ≤ (en.subs.map (fun ss => 1 + inlSet ss)).sum + fragsSize frags ∧ en.oof = false
+  en.cost ≤ (en.subs.map (fun ss => 1 + inlSet ss.1)).sum + fragsSize frags ∧ en.oof = false
 
 def LogOK (frags : List (String × String × SelectionSet)) (st : ESt) : Prop :=
   (st.log.map (·.id)).Nodup ∧ (∀ en ∈ st.log, EntryOK frags en) ∧ st.oof = false
